@@ -40,6 +40,8 @@ SIGS = {
     "stale-table": ("C03:stale-symbol-table-after-race",
                     "after the run had finished, the symbol table cached for the class still came from a version before the last change"),
     "stale-after": ("C03:stale-answer-after-race", "after the run had finished a request was still answered from an old version"),
+    "corrupt-after": ("C03:corrupted-annotation-after-race",
+                      "after the run had finished a request alone was still answered from a tree that equals no solo answer"),
     "deadlock": ("C03:deadlock", "requests blocked each other for ever"),
     "other": ("C03:unexplained-answer", "an answer equals no solo answer although no other request was analysing the document"),
     "none": ("C03:unanswered", "a request thread did not produce an answer"),
@@ -151,7 +153,7 @@ def judge_probes(probes, o):
     for (k, d), (cls, last) in zip(probes, o["q"]):
         vs = versions_of(cls)
         if vs is None or last not in vs:
-            bad.append(("stale-table" if k in TABLE_KINDS else "stale-after",
+            bad.append(("corrupt-after" if cls == "other" else "stale-table" if k in TABLE_KINDS else "stale-after",
                         "probe %s on a%s after the run: %s, the document has version %s" % (k, d, cls, last)))
     return bad
 
@@ -255,22 +257,65 @@ def trace_key(model_out):
     return None if o is None else " ".join(o["tr"])
 
 
+def interleavings(ctx, ws, configs, maxdepth):
+    """every maximal ordering of the threads at their hand-over points, explored level by level with
+    the model as the oracle for 'this thread is parked' (a schedule entry for a thread that is not
+    parked is a no-op and is pruned); returns [(config index, schedule)]"""
+    frontier = [(ci, []) for ci in range(len(configs))]
+    done = []
+    for depth in range(maxdepth):
+        cand = []
+        for ci, sch in frontier:
+            pre, ops, threads, ids, _ = configs[ci]
+            for t in ids:
+                cand.append((ci, sch + [t]))
+        if not cand:
+            break
+        lines = [case_line(ws, configs[ci][0], configs[ci][1], configs[ci][2], sch, []) for ci, sch in cand]
+        outs = ctx.run_driver(lines)
+        alive = {}
+        nxt = []
+        for (ci, sch), o in zip(cand, outs):
+            po = parse_out(o)
+            if po is None:
+                continue
+            tok = po["tr"][len(sch) - 1] if len(po["tr"]) >= len(sch) else "?:-"
+            if tok.endswith(":-"):
+                continue            # the thread was not parked: the same ordering is reached without this entry
+            nxt.append((ci, sch))
+            alive[(ci, tuple(sch[:-1]))] = True
+        # a prefix none of whose extensions moves anybody is complete
+        for ci, sch in frontier:
+            if (ci, tuple(sch)) not in alive:
+                done.append((ci, sch))
+        frontier = nxt
+    done += frontier
+    return done
+
+
 def forced_part(ctx, ws):
-    """exhaustive 2-thread orderings (+ thorough: 3 threads to depth 14), random schedules with more threads"""
+    """exhaustive orderings of 2 threads (thorough: also 3 threads, to depth 14), random schedules with more threads"""
     quick = ctx.tier == "quick"
     cases = []   # (line, threads, probes, label)
-    for pre, ops, threads, ids, label in configs_2(ctx):
-        # a request has at most 4 hand-over points, the handler sequence at most 2 per notification
-        depth = 8 if len(ops) <= 1 else 4 + 2 * len(ops)
-        for s in schedules(ids, min(depth, 9)):
-            cases.append((case_line(ws, pre, ops, threads, s, PROBES), threads, PROBES, "exh2:" + label))
+    cfg2 = configs_2(ctx)
+    t0 = time.time()
+    for ci, sch in interleavings(ctx, ws, cfg2, 14):
+        pre, ops, threads, ids, label = cfg2[ci]
+        cases.append((case_line(ws, pre, ops, threads, sch, PROBES), threads, PROBES, "exh2:" + label))
+    n2 = len(cases)
     if not quick:
-        reps = [("compl", "D"), ("def", "D"), ("diag", "D"), ("subm", "D"), ("sym", "D")]
+        reps = [("compl", "D"), ("diag", "D"), ("subm", "D"), ("sym", "D")]
+        cfg3 = []
         for a, b in itertools.combinations_with_replacement(reps, 2):
-            for ops in (["C:D:3"], ["C:D:3", "K:D"], ["S:D:3"]):
-                for s in schedules([0, 1, 2], 14 if False else 9):
-                    cases.append((case_line(ws, [], ops, [a, b], s, PROBES), [a, b], PROBES, "exh3"))
-    nrand = 400 if quick else 10000
+            for ops in (["C:D:3"], ["S:D:3"]):
+                cfg3.append(([], ops, [a, b], [0, 1, 2], "three"))
+        for a, b, c in itertools.combinations_with_replacement(reps[:3], 3):
+            cfg3.append(([], [], [a, b, c], [1, 2, 3], "three-requests"))
+        for ci, sch in interleavings(ctx, ws, cfg3, 14):
+            pre, ops, threads, ids, label = cfg3[ci]
+            cases.append((case_line(ws, pre, ops, threads, sch, PROBES), threads, PROBES, "exh3:" + label))
+    ctx.log("%d complete orderings of two threads, %d of three (enumerated with the model in %.1fs)" % (n2, len(cases) - n2, time.time() - t0))
+    nrand = 600 if quick else 10000
     for i in range(nrand):
         big = (not quick) or i % 4 == 0
         pre, ops, threads, sched, probes = random_config(ctx, 8 if big and not quick else (4 if big else 2), 4)
@@ -390,7 +435,7 @@ def parse_stress(line):
 
 def stress_part(ctx, ws):
     quick = ctx.tier == "quick"
-    n = 150 if quick else 3000
+    n = 300 if quick else 3000
     cases = []
     for i in range(n):
         rng = ctx.rng
@@ -455,7 +500,7 @@ def stress_part(ctx, ws):
         for (k, d), (cls, last) in zip(probes, q):
             vs = versions_of(cls)
             if vs is None or last not in vs:
-                sig, gen = SIGS["stale-table" if k in TABLE_KINDS else "stale-after"]
+                sig, gen = SIGS["corrupt-after" if cls == "other" else "stale-table" if k in TABLE_KINDS else "stale-after"]
                 ctx.oracle_fail(sig, gen + " — probe %s on a%s: %s, the document has version %s" % (k, d, cls, last),
                                 {"mode": "conc-stress", "case": line, "implementation": o})
     ctx.coverage_stress = {"runs": len(cases), "answers_judged": nans}
@@ -700,7 +745,8 @@ def blackbox_part(ctx, ws):
             last = hist["D"][-1]
             want = bb_solo(wsdir, "D", last, [k])[k]
             if ans != want:
-                sig, gen = SIGS["stale-table" if k in TABLE_KINDS else "stale-after"]
+                older = [v for v in sorted(set(hist["D"])) if bb_solo(wsdir, "D", v, [k])[k] == ans]
+                sig, gen = SIGS[("stale-table" if k in TABLE_KINDS else "stale-after") if older else "corrupt-after"]
                 ctx.oracle_fail(sig, gen + " — probe %s after the batch differs from the one-at-a-time answer for version %d" % (k, last),
                                 dict(case, probe=k, after_batch=ans, one_at_a_time=want))
     ctx.log("%d pipelined batches (%d requests) on the real binary in %.1fs" % (n, nreqs, time.time() - t0))
